@@ -44,6 +44,11 @@ def gen(rng, kind):
             w = cfg["oslice"][k][1] - cfg["oslice"][k][0]
             cfg["obs"][k]["vals"] = [[float(rng.randint(-2, 2)) for _ in range(w)] for _ in range(n)]
     cfg["via_call"] = rng.random() < 0.5
+    # a parameter batch: every equation reads eq_params["junk"] through a term 1000 * (junk - 2) that vanishes only with the
+    # batch rows (all 2); the nominal value is 1, so a dropped or misaligned parameter batch moves every residual by 1000
+    cfg["pbatch"] = rng.random() < 0.4
+    if cfg["pbatch"] and rng.random() < 0.5:
+        cfg["obs"] = {k: None for k in ukeys}        # ... also without any observation part
     cfg["statio_unknowns"] = []
     if kind == "nonstatio" and nu >= 2 and rng.random() < 0.5:
         # a mixed system: some unknowns (the first one among them) are stationary fields u_k(x); they have no initial condition
@@ -73,6 +78,11 @@ def gen(rng, kind):
         cfg["norm"] = {k: [[dy(rng)] for _ in range(rng.randint(1, 3))] for k in ukeys}
         if kind == "nonstatio":
             cfg["icp"] = {k: prand(rng, 1, 2, 2) or {(0,): 1} for k in ukeys}
+        if cfg["pbatch"]:
+            # under a parameter batch the rows of every batched part are paired with the parameter rows: same counts
+            # (normalisation samples), and no border part (its row count is that of the facets' points)
+            cfg["norm"] = {k: [[dy(rng)] for _ in range(n)] for k in ukeys}
+            cfg["bc"] = {k: None for k in ukeys}
     return cfg
 
 
@@ -88,7 +98,10 @@ def build(cfg):
     us = {k: (mk([drop_t(cfg["upolys"][k])] + ([drop_t(up2[k])] if up2.get(k) else []), "statio_PDE") if k in SU
               else mk([cfg["upolys"][k]] + ([up2[k]] if up2.get(k) else []), eq_type)) for k in cfg["ukeys"]}
     osl = {k: (jnp.s_[v[0]:v[1]] if v else jnp.s_[...]) for k, v in (cfg.get("oslice") or {k: None for k in cfg["ukeys"]}).items()}
-    PD = ParamsDict(nn_params={k: u.init_params() for k, u in us.items()}, eq_params={"junk": jnp.array(1.0)})
+    pbatch = bool(cfg.get("pbatch"))
+    PD = ParamsDict(nn_params={k: u.init_params() for k, u in us.items()}, eq_params={"junk": jnp.array(1.0 if pbatch else 2.0)})
+    shift = lambda p: 1000.0 * (jnp.atleast_1d(p.eq_params["junk"]).ravel()[0:1] - 2.0)
+    pb = {"junk": 2.0 * jnp.ones((len(cfg["pts"]), 1))} if pbatch else None
     base = {"ode": jinns.loss.ODE, "statio": jinns.loss.PDEStatio, "nonstatio": jinns.loss.PDENonStatio}[kind]
 
     def mkeq(spec):
@@ -96,16 +109,16 @@ def build(cfg):
         if kind == "ode":
             class E(base):
                 def equation(self, t, u_dict, params_dict):
-                    return sum(c * u_dict[k](t, params_dict.extract_params(k))[0:1] for k, c in coef.items()) + poly_jax(q, jnp.atleast_1d(t))
+                    return sum(c * u_dict[k](t, params_dict.extract_params(k))[0:1] for k, c in coef.items()) + poly_jax(q, jnp.atleast_1d(t)) + shift(params_dict)
         elif kind == "statio":
             class E(base):
                 def equation(self, x, u_dict, params_dict):
-                    return sum(c * u_dict[k](x, params_dict.extract_params(k))[0:1] for k, c in coef.items()) + poly_jax(q, x)
+                    return sum(c * u_dict[k](x, params_dict.extract_params(k))[0:1] for k, c in coef.items()) + poly_jax(q, x) + shift(params_dict)
         else:
             class E(base):
                 def equation(self, t, x, u_dict, params_dict):
                     return sum(c * (u_dict[k](x, params_dict.extract_params(k)) if k in SU else u_dict[k](t, x, params_dict.extract_params(k)))[0:1]
-                               for k, c in coef.items()) + poly_jax(q, jnp.concatenate([t, x]))
+                               for k, c in coef.items()) + poly_jax(q, jnp.concatenate([t, x])) + shift(params_dict)
         return E()
     dl = {e: mkeq(s) for e, s in cfg["eqs"].items()}
 
@@ -121,7 +134,7 @@ def build(cfg):
         lw = jinns.loss.LossWeightsODEDict(**WK(dyn_loss=cfg["w"]["dyn_loss"], initial_condition=cfg["w"]["initial_condition"], observations=cfg["w"]["observations"]))
         ic = {k: (t0, jnp.array([u0])) for k, (t0, u0) in cfg["ic"].items()}
         L = jinns.loss.SystemLossODE(u_dict=us, dynamic_loss_dict=dl, loss_weights=lw, initial_condition_dict=ic, params_dict=PD, obs_slice_dict=osl)
-        batch = ODEBatch(temporal_batch=jnp.array(cfg["pts"])[:, 0], obs_batch_dict=obs)
+        batch = ODEBatch(temporal_batch=jnp.array(cfg["pts"])[:, 0], param_batch_dict=pb, obs_batch_dict=obs)
         singles = {k: jinns.loss.LossODE(u=us[k], dynamic_loss=None, initial_condition=ic[k], params=PD.extract_params(k), obs_slice=osl[k]) for k in us}
     else:
         lw = jinns.loss.LossWeightsPDEDict(**WK(dyn_loss=cfg["w"]["dyn_loss"], norm_loss=cfg["w"]["norm_loss"], boundary_loss=cfg["w"]["boundary_loss"],
@@ -156,7 +169,8 @@ def build(cfg):
                       else jnp.array([[[t, t], [-1.0, 2.0]] for t in cfg["border_times"]]))
         L = jinns.loss.SystemLossPDE(u_dict=us, dynamic_loss_dict=dl, loss_weights=lw, params_dict=PD, **kw)
         pts = jnp.array(cfg["pts"])
-        batch = PDEStatioBatch(inside_batch=pts, border_batch=border, obs_batch_dict=obs) if kind == "statio" else PDENonStatioBatch(times_x_inside_batch=pts, times_x_border_batch=border, obs_batch_dict=obs)
+        batch = (PDEStatioBatch(inside_batch=pts, border_batch=border, param_batch_dict=pb, obs_batch_dict=obs) if kind == "statio"
+                 else PDENonStatioBatch(times_x_inside_batch=pts, times_x_border_batch=border, param_batch_dict=pb, obs_batch_dict=obs))
         cls = jinns.loss.LossPDEStatio if kind == "statio" else jinns.loss.LossPDENonStatio
         singles = {k: (jinns.loss.LossPDEStatio if k in SU else cls)(u=us[k], dynamic_loss=None, params=PD.extract_params(k), **skw[k]) for k in us}
     return us, PD, L, batch, singles, obs
@@ -172,6 +186,32 @@ def evaluate(cfg):
         _, st = S.evaluate(PD.extract_params(k), b)
         sing[k] = {t: float(v) for t, v in st.items()}
     return float(tot), {k: float(v) for k, v in terms.items()}, sing
+
+
+def system_terms_oracle(rng, n, terms=("initial_condition", "observations", "norm_loss", "boundary_loss")):
+    """for random systems: every non-dynamic term of the system loss is the weighted sum over the unknowns of the same
+    term of the single-network loss of that unknown (weights looked up by key)"""
+    fails = []
+    for k in range(n):
+        cfg = gen(rng, ["ode", "statio", "nonstatio"][k % 3])
+        for t in OTHER[cfg["kind"]]:          # per-unknown weights, written in an order of their own, all different
+            if rng.random() < 0.7:
+                ks = list(cfg["ukeys"]); rng.shuffle(ks)
+                cfg["w"][t] = ("dict", {u: (i + 1) / 2 for i, u in enumerate(ks)})
+        try:
+            tot, got, sing = evaluate(cfg)
+        except Exception as ex:
+            fails.append({"detail": f"system loss raised {type(ex).__name__}: {str(ex)[:200]}", "case": {"what": "system terms"}})
+            continue
+        for t in OTHER[cfg["kind"]]:
+            if t not in terms:
+                continue
+            spec = cfg["w"][t]
+            wk = lambda u: {"scalar": spec[1], "none": 0.0, "unset": (0.0 if cfg["kind"] == "ode" else 1.0)}.get(spec[0]) if spec[0] != "dict" else spec[1][u]
+            want = sum(wk(u) * sing[u].get(t, 0.0) for u in cfg["ukeys"])
+            if abs(got[t] - want) > 1e-9 * max(1.0, abs(want)):
+                fails.append({"detail": f"system {cfg['kind']}: term {t} is {got[t]}, the weighted sum of the unknowns' terms is {want} (weights {spec})", "case": {"what": "system terms", "kind": cfg["kind"], "term": t}})
+    return fails
 
 
 def case_term(cid, cfg, terms, sing):
@@ -246,7 +286,7 @@ def generate(tier, seed, casedir, variant):
             samples.append(dict(jsonable(cfg), returned=terms))
     write_cases(casedir, "C13", "R_C13", variant, cases, chunk=100)
     return dict(meta=meta, oracle_violations=viol, evaluations=len(cases), distinct_nontrivial=len(nontrivial), samples=samples, distribution=dist,
-                rule="random systems (ODE / stationary / non-stationary) with 1..3 equations and 1..3 unknowns (counts independent, key names inserted in any order), residuals linear in the unknowns plus a polynomial that is not symmetric in (t, x), scalar / per-key dictionary / missing weights for every field, initial conditions, normalisation samples and observations per unknown (some unknowns without observations; some with a second output channel and an observation slice of their own; half of the non-stationary systems with two or more unknowns are mixed: their first unknown is a stationary field), Dirichlet conditions on some unknowns with slices / integer indices selecting output components; non-trivial = non-zero dynamic term",
+                rule="random systems (ODE / stationary / non-stationary) with 1..3 equations and 1..3 unknowns (counts independent, key names inserted in any order), residuals linear in the unknowns plus a polynomial that is not symmetric in (t, x), scalar / per-key dictionary / missing weights for every field, initial conditions, normalisation samples and observations per unknown (some unknowns without observations; some with a second output channel and an observation slice of their own; half of the non-stationary systems with two or more unknowns are mixed: their first unknown is a stationary field), Dirichlet conditions on some unknowns with slices / integer indices selecting output components, 40% with a parameter batch the equations depend on (half of those without any observation part); non-trivial = non-zero dynamic term",
                 oracle_checks=len(cases))
 
 
